@@ -750,6 +750,25 @@ impl Host {
         Some((ev, hnd, payload))
     }
 
+    /// waitables on which a guest operation is blocked in the host right now
+    pub fn inflight(&self) -> Vec<(u32, String)> {
+        let mut v = vec![];
+        for (i, c) in self.chans.iter().enumerate() {
+            if c.pend_r.is_some() && c.r_holder == Holder::Guest && !c.r_dropped {
+                v.push((c.r_handle, format!("the read on channel {i}")));
+            }
+            if c.pend_w.is_some() && c.w_holder == Holder::Guest && !c.w_dropped {
+                v.push((c.w_handle, format!("the write on channel {i}")));
+            }
+        }
+        for s in &self.subs {
+            if s.dropped == 0 && s.cancels == 0 && matches!(s.delivered, Some(0 | 1)) && s.state < 2 {
+                v.push((s.handle, "the import call".to_string()));
+            }
+        }
+        v
+    }
+
     pub fn set_members(&self, s: u32) -> Vec<u32> {
         self.w.iter().filter(|(_, w)| w.alive && w.set == s).map(|(h, _)| *h).collect()
     }
